@@ -23,6 +23,8 @@ Defs  == ndJsonDeserialize(DefsFile)
 Univ == Trace[1].keys
 TraceKeyBits(k) == Univ[k]
 TraceAllKeys == DOMAIN Univ
+(* keys are named by their own (lower case) hex string *)
+TraceKeyPre(k, m) == SubSeq(k, 1, m)
 
 RECURSIVE Term(_)
 Term(x) ==
@@ -55,22 +57,33 @@ Init == l = 2 /\ log = <<>> /\ hmap = <<>> /\ hroot = D(NB) /\ hyps = <<>> /\ re
 Ev == Trace[l]
 
 (*-------------------------------------------------------------- add ------*)
-AddChecks(e, log2, hyperRoot) ==
-  LET v0 == Len(log)
-      m  == Len(e.bulk) IN
-  (IF Len(e.snaps) # m THEN {Tag("C05", "bulk of m events did not return m snapshots")} ELSE {})
-  \cup UNION { LET s == e.snaps[i] IN
+SnapChecks(s, i, e, log2, hyperRoot, v0) ==
        (IF s.v # v0 + i - 1 THEN {Tag("C05", "version not dense")} ELSE {})
        \cup (IF s.e # e.bulk[i] THEN {Tag("C05", "snapshot carries another event digest")} ELSE {})
-       \cup (IF i <= m /\ Term(s.hist) # Root(log2, v0 + i - 1)
+       \cup (IF Term(s.hist) # Root(log2, v0 + i - 1)
              THEN {Tag("C04", "history digest is not the canonical root")} ELSE {})
        \cup (IF Term(s.hyper) # hyperRoot
              THEN {Tag("C04", "hyper digest is not the canonical root")} ELSE {})
        \cup (IF ~s.sha THEN {Tag("C04", "SHA-256 digest differs from the evaluated canonical term")} ELSE {})
-     : i \in 1..Min(Len(e.snaps), m) }
+
+AddChecks(e, log2, hyperRoot) ==
+  LET v0 == Len(log)
+      m  == Len(e.bulk) IN
+  (IF Len(e.snaps) # m THEN {Tag("C05", "bulk of m events did not return m snapshots")} ELSE {})
+  \cup UNION { SnapChecks(e.snaps[i], i, e, log2, hyperRoot, v0) : i \in 1..Min(Len(e.snaps), m) }
+
+(* a large bulk (scale scenario): the trace carries the number of snapshots returned and a
+   sample of them, each with its position i in the bulk *)
+AddBigChecks(e, log2, hyperRoot) ==
+  LET v0 == Len(log)
+      m  == Len(e.bulk) IN
+  (IF e.nsnaps # m THEN {Tag("C05", "bulk of m events did not return m snapshots")} ELSE {})
+  \cup UNION { LET s == e.snaps[j] IN
+               IF s.i \in 1..m THEN SnapChecks(s, s.i, e, log2, hyperRoot, v0) ELSE {}
+             : j \in 1..Len(e.snaps) }
 
 StepAdd ==
-  /\ Ev.a = "add"
+  /\ Ev.a \in {"add", "addbig"}
   /\ LET log2  == log \o Ev.bulk
          hmap2 == ApplyBulkMap(hmap, Ev.bulk, Len(log))
          hr2   == HRoot(hmap2) IN
@@ -78,14 +91,15 @@ StepAdd ==
      /\ hmap' = hmap2
      /\ hroot' = hr2
      /\ hyps' = hyps \o [i \in 1..Len(Ev.bulk) |-> hr2]
-     /\ viol' = viol \cup Fails(AddChecks(Ev, log2, hr2))
+     /\ viol' = viol \cup Fails(IF Ev.a = "add" THEN AddChecks(Ev, log2, hr2) ELSE AddBigChecks(Ev, log2, hr2))
   /\ UNCHANGED reopened
 
 (*----------------------------------------------------------- member ------*)
-MemberChecksOn(e, lg, hm, hr) ==
+(* sr: the specification's hyper search result for e.d *)
+MemberChecksWith(e, lg, hm, hr, sr) ==
   LET cur == Len(lg) - 1
       q   == IF e.latest THEN cur ELSE e.q
-      an  == AnswerT(lg, hm, hr, e.d, q)
+      an  == AnswerWith(lg, hm, e.d, q, sr)
       inserted == e.d \in DOMAIN hm
       inRange  == inserted /\ hm[e.d] <= q /\ q <= cur  \* the quantifier of C01
   IN
@@ -130,6 +144,8 @@ MemberChecksOn(e, lg, hm, hr) ==
           THEN {Tag("D01", "history audit path differs from the specification")} ELSE {})
     \cup (IF "v_wire" \in DOMAIN e /\ e.v_wire # specAcc
           THEN {Tag("D02", "real verifier and specification verifier disagree")} ELSE {})
+
+MemberChecksOn(e, lg, hm, hr) == MemberChecksWith(e, lg, hm, hr, HSearchT(hm, e.d, hr))
 
 MemberChecks(e) == MemberChecksOn(e, log, hmap, hroot)
 
